@@ -54,7 +54,7 @@ prop("C15", kind="sim", quick_runs=3000, thorough_s=600,
      rule="one run = one seeded history of 3-12 (thorough: up to 30) calls on one generated ordered map (target list, key pool of 3-4 tuples, "
           "operation mix and fault mode all drawn from the seed), checked after every call against a slice+map reference model; "
           "distinct = distinct (target, full operation/result trace) hashes; non-trivial = the history changed the map at least once",
-     fault_kinds=["duplicate_key", "nil_key", "nil_element", "nil_receiver", "delete_absent"],
+     fault_kinds=["duplicate_key", "nil_key", "nil_element", "nil_receiver", "delete_absent", "json_merge_into_existing_list_refused"],
      probes=["state_changes", "two_or_more_entries", "delete_not_last", "returned_keys_mutated", "returned_values_mutated",
              "roundtrip_with_two_or_more", "map_created_by_getorcreate", "replica_synced_by_diff", "moved_to_end"])
 
@@ -86,7 +86,7 @@ prop("C10", kind="sim", quick_runs=4000, thorough_s=600,
           "one only in the target leaf and in key leaves of entries created on the way, and GetNode must return exactly one node holding the value in the "
           "leaf's Go type; distinct = distinct (package, per-step outcome trace) hashes; non-trivial = at least one set succeeded",
      fault_kinds=["failing_set", "bad:illtyped", "bad:unknown-path", "bad:missing-key"],
-     probes=["set_ok", "set_ok:tv", "set_ok:json", "set_created_entry", "set_ok:json_tolerance",
+     probes=["set_ok", "set_ok:tv", "set_ok:json", "set_created_entry", "set_ok:json_tolerance", "set_ok:leaf-list", "set_ok:shadow-path",
              "set_ok:keyclass:stringkey", "set_ok:keyclass:uint32key", "set_ok:keyclass:int64key", "set_ok:keyclass:enumkey", "set_ok:keyclass:unionkey",
              "set_ok:keyclass:boolkey", "set_ok:keyclass:multikey",
              "set_ok:ykind:string", "set_ok:ykind:uint8", "set_ok:ykind:uint16", "set_ok:ykind:uint32", "set_ok:ykind:uint64", "set_ok:ykind:int8", "set_ok:ykind:int16",
@@ -103,7 +103,7 @@ prop("C13", kind="sim", quick_runs=4000, thorough_s=600,
           "optionally under a common prefix; the recorded effects are applied to the path -> value reference model in gNMI order and compared with the "
           "walker's view of the tree (leaf set and ordered-list order); distinct = distinct (package, outcome trace) hashes; non-trivial = some request changed the tree",
      fault_kinds=["bad_request", "failing_request"],
-     probes=["state_changes", "multi_step_request", "overlapping_steps", "ordered_list_present", "effect:delete:leaf", "effect:delete:interior",
+     probes=["state_changes", "multi_step_request", "overlapping_steps", "ordered_list_present", "same_path_written_twice", "effect:delete:leaf", "effect:delete:interior",
              "effect:replace:leaf", "effect:replace:leaf-list", "effect:replace:container", "effect:replace:list-entry", "effect:replace:ordered-list-entry",
              "effect:update:leaf", "effect:update:leaf-list", "effect:update:container", "effect:update:list-entry", "effect:update:ordered-list-entry",
              "effect:replace:atomic"],
@@ -410,7 +410,13 @@ def generic_check(pid, tier, seed):
     finally:
         if racedir:
             shutil.rmtree(racedir, ignore_errors=True)
-    internal += rep_int
+    if rep_int and (new or known):
+        # some reported violations did not reproduce from their replay file and are dropped;
+        # the ones that did reproduce stand on their own
+        for e in rep_int:
+            log("DROPPED (did not reproduce in a fresh process, not reported):", e[:600])
+    else:
+        internal += rep_int
     wall = time.time() - t0
     run_wall = max(1e-6, wall - info.get("build_s", 0) if False else wall)
     fps = set()
